@@ -21,3 +21,5 @@ for p in "${props[@]}"; do
   (cd $V && SPLINK_REPO=$wt timeout 3000 ./check $p --tier quick 2>&1 | grep -E "VIOLATION|KNOWN-FINDING|^\[$p\]|Traceback|Error" | head -8)
 done
 git -C /repo worktree remove --force $wt
+# the translators regenerated lean/SplinkVerif/Generated from the CHANGED tree: put the committed files back
+git -C $V checkout -- lean/SplinkVerif/Generated replays 2>/dev/null
